@@ -2,6 +2,7 @@ package main
 
 import (
 	"fmt"
+	"os"
 	"strings"
 	"sync"
 	"sync/atomic"
@@ -92,6 +93,9 @@ type Explorer struct {
 	pool  *Pool
 	stack []dec
 	pos   int
+
+	verify   bool   // replay: every recorded decision is re-checked against the alternatives feasible in the current code
+	diverged string // replay: why the recorded decisions no longer describe a path of the current code
 }
 
 func (e *Explorer) load(t task) {
@@ -104,12 +108,34 @@ func (e *Explorer) load(t task) {
 
 type infeasible struct{}
 
+var debugReplay = os.Getenv("GPV_DEBUG_REPLAY") != ""
+
 // decide returns the alternative to follow at the next decision point. feas computes the feasible
 // alternatives the first time the point is met (default alternative first).
 func (e *Explorer) decide(label string, feas func() []int) int {
 	if e.pos < len(e.stack) {
 		d := e.stack[e.pos]
 		e.pos++
+		if e.verify && d.frozen && label != "dpor" { // a schedule alternative is checked by the scheduler (enabledness)
+			if d.label != "" && d.label != label {
+				e.diverged = fmt.Sprintf("decision %d was recorded at %q and is now met at %q", e.pos-1, d.label, label)
+				panic(infeasible{})
+			}
+			ok := false
+			fa := feas()
+			if debugReplay {
+				fmt.Printf("replay: decision %d %s recorded=%d feasible=%v\n", e.pos-1, label, d.alts[d.cur], fa)
+			}
+			for _, a := range fa {
+				if a == d.alts[d.cur] {
+					ok = true
+				}
+			}
+			if !ok {
+				e.diverged = fmt.Sprintf("decision %d (%s): recorded alternative %d is not feasible in the current code", e.pos-1, label, d.alts[d.cur])
+				panic(infeasible{})
+			}
+		}
 		return d.alts[d.cur]
 	}
 	alts := feas()
@@ -168,6 +194,14 @@ func (e *Explorer) reversals(idx int) int {
 		}
 	}
 	return n
+}
+
+func (e *Explorer) labels() []string {
+	out := make([]string, len(e.stack))
+	for i, d := range e.stack {
+		out[i] = d.label
+	}
+	return out
 }
 
 func (e *Explorer) decisions() []int {
